@@ -419,7 +419,8 @@ func newRecordIterators(ctx *Context, structType reflect.Type, name string) (typ
 		context.EventReceiver.OnRecord(identifier)
 		for _, field := range fields {
 			fieldValue := field.getValueFromStruct(value)
-			if shouldIncludeField(field, fieldValue, ctx.Configuration.Iterator.DefaultFieldOmitBehavior) {
+			// A record carries one value per key of its record type, so the same fields as in typeIterator
+			if shouldIncludeField(field, dummyValue, ctx.Configuration.Iterator.DefaultFieldOmitBehavior) {
 				field.Iterate(context, fieldValue)
 			}
 		}
